@@ -261,7 +261,7 @@ class Interpreter(object):
     def command_integers(self, identifiers):
 #        print 'INTEGERS'
         for identifier in identifiers:
-            self.vars[identifier.value()] = Integer()
+            self.add_variable(identifier.value(), Integer())
 
     def command_iterate(self, function_group):
         function = function_group[0].value()
@@ -317,7 +317,7 @@ class Interpreter(object):
     def command_strings(self, identifiers):
         #print 'STRINGS'
         for identifier in identifiers:
-            self.vars[identifier.value()] = String()
+            self.add_variable(identifier.value(), String())
 
     @staticmethod
     def is_missing_field(field):
